@@ -98,6 +98,15 @@ fn step(fx: &Fixture, pre: &Snap, pre_map: &Map, st: &Step, is_new: &dyn Fn(u64)
     let mut post_of_tx: Option<Snap> = None;
     let (class, nontrivial, post_map): (String, bool, Option<Map>) = match st {
         Step::Tx(tx) => {
+            // Domain: a RefLog::Only *update* whose (dereferenced) ref does not exist writes a reflog for a non-existent ref. Such an
+            // orphan reflog (git never produces one) is invisible to the name->value model but obstructs sibling names as a
+            // directory/file conflict (logs/refs/heads/a vs logs/refs/heads/a/b). Not executed, not expanded.
+            if tx.edits.iter().any(|e| {
+                let leaf = if e.deref { follow(pre_map, e.name) } else { e.name };
+                e.log_only && matches!(e.chg, Chg::Update { .. }) && !pre_map.contains_key(&leaf)
+            }) {
+                return Ok(StepOk { class: "outside-domain:reflog-only-update-of-absent-ref".into(), nontrivial: false, post: None, api_calls: 0, git_observed: false });
+            }
             let predicted = model_apply(pre_map, tx);
             let store = fx.store(dir.path());
             let outcome = fx.run_tx(&store, tx, gix_lock::acquire::Fail::Immediately);
@@ -349,6 +358,7 @@ pub fn run(run: &'static Run) {
     }
     run.assume("directory/file pair refs/heads/a vs refs/heads/a/b: either refusal (nothing changes) or the plain map result is accepted (loose storage cannot hold both, packed storage can); a failing commit() there may be partial as documented");
     run.assume("an absent refs/ directory is equivalent to an empty one (gitoxide deliberately prunes it, git needs it): it is re-created before git is asked");
+    run.assume("RefLog::Only updates of a ref that does not exist are outside the domain (they leave an orphan reflog that the name->value model cannot see and that obstructs sibling names like a directory/file conflict)");
     run.assume("states without HEAD are observed through gitoxide only (git does not recognise the directory); git 2.39 is the second observer everywhere else");
     run.assume("Delete with PreviousValue::MustNotExist is outside the domain (documented as invalid); lock mode Immediately; the BFS part has no concurrent party (two concurrent transactions: sub-check concurrent-transactions; locks held by others: C17)");
     run.budget_secs(std::env::var("VERIF_C16_BUDGET").ok().and_then(|s| s.parse().ok()).unwrap_or(run.pick(55.0, 540.0)));
